@@ -461,6 +461,212 @@ fn mips_to_case(e: Enc, idx: u64) -> Case {
     Case { coq, descr, tags, nontrivial: accepted, key: format!("{}:{:?}:{}:{}", e.form, e.words, e.big, e.addr) }
 }
 
+
+// ------------------------------------------------------------------ PowerPC encodings
+fn xform(op: u32, rt: u32, ra: u32, rb: u32, xo: u32, rc: u32) -> u32 {
+    (op << 26) | (rt << 21) | (ra << 16) | (rb << 11) | (xo << 1) | rc
+}
+fn dform(op: u32, rt: u32, ra: u32, d: u32) -> u32 {
+    (op << 26) | (rt << 21) | (ra << 16) | (d & 0xffff)
+}
+
+#[derive(Clone, Copy, PartialEq, Debug)]
+enum P {
+    X3(u32),       // opcode 31, xo: rt ra rb (add, subf)
+    Addze,
+    D(u32),        // addi / addis: rt ra si
+    Cmp(u32),      // cmpwi / cmplwi
+    Mem(u32),      // lbz lwz lwzu stw stwu
+    Stmw,
+    Or,
+    Mr,
+    Ori,
+    Nop,
+    Rlwinm,
+    Slwi,
+    Srawi,
+    Spr(u32, u32), // xo (467 mtspr | 339 mfspr), spr number
+    B(u32),        // lk
+    Bc,
+    Bclr,
+    Blr,
+    Bctr,
+}
+const PPC_FORMS: &[(&str, P)] = &[
+    ("add", P::X3(266)), ("subf", P::X3(40)), ("addze", P::Addze), ("addi", P::D(14)), ("addis", P::D(15)),
+    ("cmpwi", P::Cmp(11)), ("cmplwi", P::Cmp(10)),
+    ("lbz", P::Mem(34)), ("lwz", P::Mem(32)), ("lwzu", P::Mem(33)), ("stw", P::Mem(36)), ("stwu", P::Mem(37)), ("stmw", P::Stmw),
+    ("or", P::Or), ("mr", P::Mr), ("ori", P::Ori), ("nop", P::Nop), ("rlwinm", P::Rlwinm), ("slwi", P::Slwi), ("srawi", P::Srawi),
+    ("mtlr", P::Spr(467, 8)), ("mtctr", P::Spr(467, 9)), ("mflr", P::Spr(339, 8)), ("mfctr", P::Spr(339, 9)),
+    ("b", P::B(0)), ("bl", P::B(1)), ("bc", P::Bc), ("bclr", P::Bclr), ("blr", P::Blr), ("bctr", P::Bctr),
+    ("cmpwi", P::Cmp(11)), ("cmplwi", P::Cmp(10)), ("bclr", P::Bclr), ("rlwinm", P::Rlwinm), ("li/lis", P::D(15)),
+];
+
+#[derive(Clone, Default)]
+struct PSample { regs: Vec<(u32, u32)>, lr: u32, ctr: u32, cr: u32, ca: u32, so: u32, seed: u32 }
+impl PSample {
+    fn coq(&self) -> String {
+        format!("(mkpsample {} {} {} {} {} {} {})",
+            coq_list(self.regs.iter().map(|(r, v)| format!("({}, {})", r, v)).collect::<Vec<_>>()),
+            self.lr, self.ctr, self.cr, self.ca, self.so, self.seed)
+    }
+    fn short(&self) -> String {
+        format!("{{{} lr={:#x} ctr={:#x} cr={:#x} ca={} so={} m={}}}",
+            self.regs.iter().map(|(r, v)| format!("r{}={:#x}", r, v)).collect::<Vec<_>>().join(","),
+            self.lr, self.ctr, self.cr, self.ca, self.so, self.seed)
+    }
+}
+
+struct PEnc { form: String, word: u32, addr: u64, samples: Vec<PSample>, tags: Vec<String>, text: String }
+
+fn ppc_samples(r: &mut Rng, v: u64, x: Option<u32>, y: Option<u32>, n: usize) -> Vec<PSample> {
+    (0..n).map(|j| {
+        let (a, b) = if j < 8 { PAIRS[(v as usize * 8 + j) % PAIRS.len()] } else if j < 10 {
+            (BOUNDS[(v as usize + j) % BOUNDS.len()], BOUNDS[(v as usize * 3 + j) % BOUNDS.len()])
+        } else { (r.next() as u32, r.next() as u32) };
+        let mut s = PSample {
+            lr: if j % 4 == 3 { r.next() as u32 } else { (r.next() as u32) & !3 },
+            ctr: [0u32, 1, 2, 0xffff_ffff, 0x8000_0000][(v as usize + j) % 5].wrapping_add(if j >= 5 { r.next() as u32 & !3 } else { 0 }),
+            cr: r.next() as u32, ca: (j as u32 + v as u32) % 2, so: ((j / 2) as u32 + v as u32) % 2, seed: r.below(256) as u32, ..Default::default()
+        };
+        if let Some(x) = x { s.regs.push((x, a)); }
+        if let Some(y) = y { if Some(y) != x { s.regs.push((y, b)); } }
+        s
+    }).collect()
+}
+
+fn ppc_case(seed: u64, idx: u64) -> PEnc {
+    let mut rng = Rng::for_case(seed ^ 0x5050, idx);
+    let r = &mut rng;
+    let nf = PPC_FORMS.len() as u64;
+    let (name, k) = PPC_FORMS[(idx % nf) as usize];
+    let v = idx / nf;
+    let p = v % 14;
+    let immi = v % 7;
+    let imm: u32 = if immi < 6 { IMMS[immi as usize] } else { r.below(0x10000) as u32 };
+    let addr: u64 = if v % 3 == 2 { 0x1000_2000 } else { 0x0040_1000 };
+    // register patterns: PPC r0 is an ordinary register except as (RA|0)
+    let (mut a, mut b, mut c) = reg_pattern(r, p, v);
+    if p == 0 && v % 2 == 1 { a = 0; }
+    if p == 4 && v % 2 == 1 { b = 31; c = 31; }
+    let ns = 10usize;
+    let mut tags = vec![format!("form:ppc-{}", name), "arch:ppc".to_string(), format!("regs:p{}", p.min(11))];
+    let (word, samples, text): (u32, Vec<PSample>, String) = match k {
+        P::X3(xo) => (xform(31, a, b, c, xo, 0), ppc_samples(r, v, Some(b), Some(c), ns), format!("{} r{}, r{}, r{}", name, a, b, c)),
+        P::Addze => (xform(31, a, b, 0, 202, 0), ppc_samples(r, v, Some(b), None, ns), format!("addze r{}, r{}", a, b)),
+        P::D(op) => (dform(op, a, b, imm), ppc_samples(r, v, Some(b), None, ns), format!("{} r{}, r{}, {:#x}", name, a, b, imm)),
+        P::Cmp(op) => {
+            let bf = (v % 8) as u32;
+            let mut s = ppc_samples(r, v, Some(b), None, ns);
+            for (j, x) in s.iter_mut().enumerate() {
+                // operands equal to / around the immediate
+                let sx = if op == 11 { (imm as u16 as i16) as i32 as u32 } else { imm };
+                if j < 3 { x.regs = vec![(b, sx.wrapping_add(j as u32).wrapping_sub(1))]; }
+            }
+            (dform(op, bf << 2, b, imm), s, format!("{} cr{}, r{}, {:#x}", name, bf, b, imm))
+        }
+        P::Mem(op) => {
+            let sx = (imm as u16 as i16) as i32 as u32;
+            let s: Vec<PSample> = ppc_samples(r, v, None, None, ns).into_iter().enumerate().map(|(j, mut x)| {
+                let ea = EAS[(v as usize + j) % EAS.len()].wrapping_add(if j % 3 == 2 { (j as u32) % 4 } else { 0 });
+                x.regs.push((b, ea.wrapping_sub(sx)));
+                if a != b { x.regs.push((a, rnd32(r))); }
+                x
+            }).collect();
+            (dform(op, a, b, imm), s, format!("{} r{}, {:#x}(r{})", name, a, imm, b))
+        }
+        P::Stmw => {
+            let rs = [29u32, 31, 25, 30, 20][(v % 5) as usize];
+            let sx = (imm as u16 as i16) as i32 as u32;
+            let base = if b >= rs { 1 } else { b };
+            let s: Vec<PSample> = ppc_samples(r, v, None, None, 6).into_iter().enumerate().map(|(j, mut x)| {
+                let ea = EAS[(v as usize + j) % 3] & !3;
+                x.regs.push((base, ea.wrapping_sub(sx)));
+                for q in rs..32 { x.regs.push((q, rnd32(r))); }
+                x
+            }).collect();
+            (dform(47, rs, base, imm), s, format!("stmw r{}, {:#x}(r{})", rs, imm, base))
+        }
+        P::Or => (xform(31, b, a, c, 444, 0), ppc_samples(r, v, Some(b), Some(c), ns), format!("or r{}, r{}, r{}", a, b, c)),
+        P::Mr => (xform(31, b, a, b, 444, 0), ppc_samples(r, v, Some(b), None, 6), format!("mr r{}, r{}", a, b)),
+        P::Ori => (dform(24, b, a, imm), ppc_samples(r, v, Some(b), None, ns), format!("ori r{}, r{}, {:#x}", a, b, imm)),
+        P::Nop => (0x6000_0000, ppc_samples(r, v, None, None, 2), "nop".to_string()),
+        P::Rlwinm => {
+            let sh = [0u32, 1, 2, 31, 16, 8][(v % 6) as usize];
+            let (mb, me) = [(0u32, 31u32), (0, 29), (16, 31), (24, 7), (31, 0), (5, 4), (0, 0), (31, 31), (10, 20), (20, 10)][(v % 10) as usize];
+            (xform(21, b, a, sh, 0, 0) | (mb << 6) | (me << 1), ppc_samples(r, v, Some(b), None, ns), format!("rlwinm r{}, r{}, {}, {}, {}", a, b, sh, mb, me))
+        }
+        P::Slwi => {
+            let sh = [1u32, 2, 31, 16, 8, 4][(v % 6) as usize];
+            (xform(21, b, a, sh, 0, 0) | (0 << 6) | ((31 - sh) << 1), ppc_samples(r, v, Some(b), None, ns), format!("slwi r{}, r{}, {}", a, b, sh))
+        }
+        P::Srawi => {
+            let sh = [0u32, 1, 31, 16, 4, 8][(v % 6) as usize];
+            (xform(31, b, a, sh, 824, 0), ppc_samples(r, v, Some(b), None, ns), format!("srawi r{}, r{}, {}", a, b, sh))
+        }
+        P::Spr(xo, n) => (xform(31, a, n & 31, n >> 5, xo, 0), ppc_samples(r, v, Some(a), None, 6), format!("{} r{}", name, a)),
+        P::B(lk) => {
+            let li = [1u32, 4, 0x3f_fff0, 0x100, 0xff_ff00][(v % 5) as usize] & 0xff_ffff;
+            ((18 << 26) | (li << 2) | lk, ppc_samples(r, v, None, None, 3), format!("{} {:#x}", name, li << 2))
+        }
+        P::Bc => {
+            let bo = [12u32, 4, 16, 18, 20, 8, 0, 12][(v % 8) as usize];
+            let bi = [2u32, 10, 0, 1, 30, 2, 5, 2][((v / 8) % 8) as usize];
+            let bd = [4u32, 0x10, 0x3ff0][(v % 3) as usize];
+            ((16 << 26) | (bo << 21) | (bi << 16) | (bd << 2), ppc_samples(r, v, None, None, ns), format!("bc {}, {}, {:#x}", bo, bi, bd << 2))
+        }
+        P::Bclr => {
+            let bo = [12u32, 4, 16, 18, 8, 0, 10, 2, 13, 5][(v % 10) as usize];
+            let bi = [2u32, 10, 0, 1, 30, 6, 5][((v / 10) % 7) as usize];
+            (xform(19, bo, bi, 0, 16, 0), ppc_samples(r, v, None, None, ns), format!("bclr {}, {}", bo, bi))
+        }
+        P::Blr => (xform(19, 20, 0, 0, 16, 0), ppc_samples(r, v, None, None, 4), "blr".to_string()),
+        P::Bctr => (xform(19, 20, 0, 0, 528, 0), ppc_samples(r, v, None, None, 4), "bctr".to_string()),
+    };
+    let _ = c;
+    let mut samples = samples;
+    if matches!(k, P::Bclr | P::Blr | P::Bctr) {
+        // NIA <- LR / CTR with the two low bits cleared: a case has either only word-aligned targets or none
+        let low = v % 3 == 2;
+        // bclr / blr jump to LR (CTR keeps its boundary values 0, 1, 2: the decrement-and-test forms), bctr to CTR
+        for x in samples.iter_mut() {
+            if matches!(k, P::Bctr) {
+                if low { x.ctr |= 1 + (x.seed & 2); } else { x.ctr &= !3; }
+            } else if low { x.lr |= 1 + (x.seed & 2); } else { x.lr &= !3; }
+        }
+        if low { tags.push("kf:ppc-indirect-branch-target-low-bits".into()); }
+    }
+    PEnc { form: name.to_string(), word, addr, samples, tags, text }
+}
+
+const PPC_NAMES: [&str; 67] = [
+    "r0", "r1", "r2", "r3", "r4", "r5", "r6", "r7", "r8", "r9", "r10", "r11", "r12", "r13", "r14", "r15",
+    "r16", "r17", "r18", "r19", "r20", "r21", "r22", "r23", "r24", "r25", "r26", "r27", "r28", "r29", "r30", "r31",
+    "lr", "ctr", "carry",
+    "cr0-lt", "cr0-gt", "cr0-eq", "cr0-so", "cr1-lt", "cr1-gt", "cr1-eq", "cr1-so", "cr2-lt", "cr2-gt", "cr2-eq", "cr2-so",
+    "cr3-lt", "cr3-gt", "cr3-eq", "cr3-so", "cr4-lt", "cr4-gt", "cr4-eq", "cr4-so", "cr5-lt", "cr5-gt", "cr5-eq", "cr5-so",
+    "cr6-lt", "cr6-gt", "cr6-eq", "cr6-so", "cr7-lt", "cr7-gt", "cr7-eq", "cr7-so",
+];
+
+fn ppc_to_case(e: PEnc, idx: u64) -> Case {
+    let bytes = e.word.to_be_bytes().to_vec();
+    let opts = Options::default();
+    let o = observe(|| ppc::Ppc::new().translate_block(&bytes, e.addr, &opts));
+    let mut it = seeded_interner(&PPC_NAMES);
+    let mut tags = e.tags.clone();
+    let (lifted, iltxt, accepted) = match &o {
+        Obs::Ok(res) => (format!("(Some {})", dump_lifted(res, &mut it)), il_text(res), true),
+        Obs::Err(k) => ("None".to_string(), format!("<lifter error {}>", k), false),
+        Obs::Panic => ("None".to_string(), "<lifter panic>".to_string(), false),
+    };
+    tags.push(format!("lift:{}", o.kind()));
+    let samples = coq_list(e.samples.iter().map(|s| s.coq()).collect::<Vec<_>>());
+    let coq = format!("KPpc {} {} {} {}", e.addr, e.word, lifted, samples);
+    let descr = format!("#{} ppc @{:#x} word={:#010x} {} => {} ; samples: {}", idx, e.addr, e.word, e.text, iltxt,
+        e.samples.iter().take(3).map(|s| s.short()).collect::<Vec<_>>().join(" "));
+    Case { coq, descr, tags, nontrivial: accepted, key: format!("ppc:{}:{:#x}:{}", e.form, e.word, e.addr) }
+}
+
 // ------------------------------------------------------------------ opcode sweep: what does the lifter accept?
 fn mips_sweep() -> Vec<String> {
     let mut acc = vec![];
@@ -548,9 +754,12 @@ fn main() {
     quiet_panics();
     let args = parse_args();
     let _ = il::const_(0, 1);
-    let _ = ppc::Ppc::new();
     let idxs: Vec<u64> = match args.only { Some(i) => vec![i], None => (0..args.n).collect() };
-    let cases: Vec<Case> = idxs.iter().map(|i| mips_to_case(mips_case(args.seed, *i), *i)).collect();
+    // three MIPS cases, then one PowerPC case
+    let cases: Vec<Case> = idxs
+        .iter()
+        .map(|i| if *i % 4 == 3 { ppc_to_case(ppc_case(args.seed, *i / 4), *i) } else { mips_to_case(mips_case(args.seed, (*i / 4) * 3 + *i % 4), *i) })
+        .collect();
     let accepted = if args.only.is_none() { mips_sweep() } else { vec![] };
     let mut rejected: std::collections::BTreeMap<String, u64> = Default::default();
     for c in &cases {
